@@ -779,21 +779,26 @@ impl Worker {
                     let mut path = PathBuf::from(&self.dir);
                     path.push(file_name);
 
-                    file = ActiveFile::try_open_reuse(&self.fs, &path)
-                        .map_err(|err| {
-                            self.metrics.file_open_failed.increment();
+                    file = ActiveFile::try_open_reuse(
+                        &self.fs,
+                        &path,
+                        &self.file_prefix,
+                        &self.file_ext,
+                    )
+                    .map_err(|err| {
+                        self.metrics.file_open_failed.increment();
 
-                            emit::warn!(
-                                rt: emit::runtime::internal(),
-                                "failed to open {path}: {err}",
-                                #[emit::as_debug]
-                                path,
-                                err,
-                            );
+                        emit::warn!(
+                            rt: emit::runtime::internal(),
+                            "failed to open {path}: {err}",
+                            #[emit::as_debug]
+                            path,
+                            err,
+                        );
 
-                            err
-                        })
-                        .ok()
+                        err
+                    })
+                    .ok()
                 }
             }
         }
@@ -829,7 +834,7 @@ impl Worker {
                 &file_id,
             ));
 
-            match ActiveFile::try_open_create(&self.fs, &path) {
+            match ActiveFile::try_open_create(&self.fs, &path, &self.file_prefix, &self.file_ext) {
                 Ok(file) => {
                     self.metrics.file_create.increment();
 
@@ -963,7 +968,7 @@ impl<'a> ActiveFileSet<'a> {
                 continue;
             };
 
-            if file_name.starts_with(&file_prefix) && file_name.ends_with(&file_ext) {
+            if read_file_name_ts(file_name, file_prefix, file_ext).is_ok() {
                 file_set.push(file_name.to_owned());
             }
         }
@@ -1028,10 +1033,12 @@ impl ActiveFile {
     fn try_open_reuse(
         fs: impl Filesystem,
         file_path: impl AsRef<Path>,
+        file_prefix: &str,
+        file_ext: &str,
     ) -> Result<ActiveFile, io::Error> {
         let file_path = file_path.as_ref();
 
-        let file_ts = read_file_path_ts(file_path)?.to_owned();
+        let file_ts = read_file_path_ts(file_path, file_prefix, file_ext)?.to_owned();
 
         let file = fs.open_existing(file_path)?;
 
@@ -1051,10 +1058,12 @@ impl ActiveFile {
     fn try_open_create(
         fs: impl Filesystem,
         file_path: impl AsRef<Path>,
+        file_prefix: &str,
+        file_ext: &str,
     ) -> Result<ActiveFile, io::Error> {
         let file_path = file_path.as_ref();
 
-        let file_ts = read_file_path_ts(file_path)?.to_owned();
+        let file_ts = read_file_path_ts(file_path, file_prefix, file_ext)?.to_owned();
 
         let file = fs.open_new(file_path)?;
 
@@ -1182,8 +1191,12 @@ fn file_id(rolling_millis: u32, rolling_id: u32) -> String {
     format!("{:<08}.{:<08x}", rolling_millis, rolling_id)
 }
 
-fn read_file_name_ts(file_name: &str) -> Result<&str, io::Error> {
-    file_name.split('.').skip(1).next().ok_or_else(|| {
+fn read_file_name_ts<'a>(
+    file_name: &'a str,
+    file_prefix: &str,
+    file_ext: &str,
+) -> Result<&'a str, io::Error> {
+    parse_file_name_ts(file_name, file_prefix, file_ext).ok_or_else(|| {
         io::Error::new(
             io::ErrorKind::Other,
             "could not determine timestamp from filename",
@@ -1191,14 +1204,63 @@ fn read_file_name_ts(file_name: &str) -> Result<&str, io::Error> {
     })
 }
 
-fn read_file_path_ts(path: &Path) -> Result<&str, io::Error> {
+// Files in a set are named `{prefix}.{ts}.{millis:08}.{id:08x}.{ext}`
+// Anything else in the directory belongs to someone else
+fn parse_file_name_ts<'a>(
+    file_name: &'a str,
+    file_prefix: &str,
+    file_ext: &str,
+) -> Option<&'a str> {
+    fn is_digits(field: &str, len: usize) -> bool {
+        field.len() == len && field.bytes().all(|b| b.is_ascii_digit())
+    }
+
+    fn is_hex_digits(field: &str, len: usize) -> bool {
+        field.len() == len
+            && field
+                .bytes()
+                .all(|b| matches!(b, b'0'..=b'9' | b'a'..=b'f'))
+    }
+
+    // `yyyy-mm-dd`, optionally followed by `-hh` and `-mm`
+    fn is_ts(ts: &str) -> bool {
+        let mut fields = ts.split('-');
+
+        fields.next().map_or(false, |field| is_digits(field, 4))
+            && fields.next().map_or(false, |field| is_digits(field, 2))
+            && fields.next().map_or(false, |field| is_digits(field, 2))
+            && fields.clone().count() <= 2
+            && fields.all(|field| is_digits(field, 2))
+    }
+
+    let rest = file_name.strip_prefix(file_prefix)?.strip_prefix('.')?;
+    let rest = rest.strip_suffix(file_ext)?.strip_suffix('.')?;
+
+    let mut fields = rest.split('.');
+
+    let ts = fields.next()?;
+    let millis = fields.next()?;
+    let id = fields.next()?;
+
+    if fields.next().is_none() && is_ts(ts) && is_digits(millis, 8) && is_hex_digits(id, 8) {
+        Some(ts)
+    } else {
+        None
+    }
+}
+
+fn read_file_path_ts<'a>(
+    path: &'a Path,
+    file_prefix: &str,
+    file_ext: &str,
+) -> Result<&'a str, io::Error> {
     let file_name = path
         .file_name()
         .ok_or_else(|| io::Error::new(io::ErrorKind::Other, "unable to determine filename"))?
         .to_str()
         .ok_or_else(|| io::Error::new(io::ErrorKind::Other, "file names must be valid UTF8"))?;
 
-    read_file_name_ts(file_name)
+    read_file_name_ts(file_name, file_prefix, file_ext)
 }
 
 fn file_name(file_prefix: &str, file_ext: &str, ts: &str, id: &str) -> String {
@@ -1664,8 +1726,8 @@ pub mod verif {
     /**
     The private `read_file_name_ts`.
     */
-    pub fn read_file_name_ts(file_name: &str) -> Option<String> {
-        super::read_file_name_ts(file_name)
+    pub fn read_file_name_ts(file_name: &str, file_prefix: &str, file_ext: &str) -> Option<String> {
+        super::read_file_name_ts(file_name, file_prefix, file_ext)
             .ok()
             .map(|ts| ts.to_owned())
     }
